@@ -57,8 +57,8 @@ def gen_table(rng, nmodels=None, within_limits=True, altlocs=True, charges=True)
             r["serial"] = serial
             serial += 1
             r["x1000"] = rng.choice([rng.randint(-999999, 9999999), rng.randint(-50000, 50000), rng.randint(-50000, 50000), 0, -999999, 9999999, 5, -5])
-            r["y1000"] = rng.randint(-80000, 80000)
-            r["z1000"] = rng.randint(-80000, 80000)
+            r["y1000"] = rng.choice([rng.randint(-80000, 80000), rng.randint(-80000, 80000), rng.randint(-999999, 9999999), -999999, 9999999, -100001])
+            r["z1000"] = rng.choice([rng.randint(-80000, 80000), rng.randint(-80000, 80000), rng.randint(-999999, 9999999), -999999, 9999999, -100001])
             r["b100"] = rng.choice([rng.randint(0, 20000), 0, 99999, 1])
             table.append(r)
     return table
